@@ -304,6 +304,7 @@ func (ch *channel) receive(msg pmpx.Message) status.Status {
 	}
 
 	// Receive message
+	vtrc("deliver", ch)
 	return s.receiveMessage(msg)
 }
 
